@@ -213,6 +213,36 @@ def run(ctx) -> list[Inst]:
                 insts.append(Inst(RULE, rf.short, construct, v, msg=msg, file=rel_r,
                                   line=r.expr.lineno, props=props))
                 break
+        # ---------------------------------------------------------------- (ii') omission guards
+        for path, wl in sorted(wby.items()):
+            for w in wl:
+                if not w.conditional or path[-1] == '*' or w.guard_test is None:
+                    continue
+                construct = f"(ii') {cd['name']}: {'/'.join(path)} omitted only when it equals the reader's default"
+                ttxt = stmt_text(w.guard_test)
+                subject = None
+                if w.guard == 'not-none' and isinstance(w.guard_test, ast.Compare):
+                    subject = stmt_text(w.guard_test.left)
+                elif w.guard == 'truthy':
+                    subject = ttxt
+                vtxt = stmt_text(w.value)
+                same_subject = subject is not None and (subject in vtxt or (w.src and subject.endswith(w.src.split('.', 1)[-1])))
+                if w.guard in ('not-none', 'truthy') and same_subject:
+                    insts.append(Inst(RULE, w.func.short, construct, 'ok', msg=f'if {ttxt}',
+                                      file=w.func.module.relpath, line=w.guard_test.lineno, props=props))
+                elif w.guard in ('not-none', 'truthy'):
+                    insts.append(Inst(
+                        RULE, w.func.short, construct, 'violation',
+                        msg=(f"'{path[-1]}' (from {vtxt}) is written only 'if {ttxt}', a test of a different "
+                             f"value: it can be omitted although it differs from what the reader assumes"),
+                        file=w.func.module.relpath, line=w.guard_test.lineno, props=props))
+                else:
+                    insts.append(Inst(
+                        RULE, w.func.short, construct, 'violation',
+                        msg=(f"'{path[-1]}' (from {vtxt}) is written only 'if {ttxt}': that is neither a "
+                             f"None test nor the emptiness of the value itself, so a value different from the "
+                             f"reader's default can be dropped on save"),
+                        file=w.func.module.relpath, line=w.guard_test.lineno, props=props))
         # ---------------------------------------------------------------- (iii)
         for path, wl in sorted(wby.items()):
             if path[-1] == '*':
